@@ -396,17 +396,17 @@ Section PowerHist.
   Qed.
 
   Theorem C09_gen : forall h,
-    c_pre cfg = false -> c_n cfg < 2 ^ 64 -> hist_good good h ->
+    c_n cfg < 2 ^ 64 -> hist_good good h ->
     NoCollide (flat_map evl_contents h) -> extl_fits [] h -> N.of_nat (length h) < 2 ^ 32 - 1 ->
     exists hd0 w0, reopen empty_fs = Some (hd0, w0) /\
     exists hd w', run_extl (hd0, w0) h = Some (hd, w') /\ h_cfg hd = cfg /\ wfault w' = None /\
       exists sg, allowedl [] h sg /\ Inv' (h_mem hd) (wfs w') sg.
   Proof.
-    intros h Pre Nfit HWal NC Fit Ln.
+    intros h Nfit HWal NC Fit Ln.
     assert (R0 : RestSB 1 empty_fs []).
     { split.
       - split; [constructor|]. split; [intros a b []|]. right.
-        split; [reflexivity|]. split; [exact Pre|]. split; [exact Nfit|]. split; [exact empty_fs_wf|].
+        split; [reflexivity|]. split; [exact Nfit|]. split; [exact empty_fs_wf|].
         repeat split; intros; reflexivity.
       - assert (E : forall p, syn empty_fs p) by (intros p f G; discriminate).
         split; [apply E|]. split; [apply E|]. split; intros; apply E. }
@@ -428,7 +428,7 @@ Section PowerHist.
      The last power loss may hit ANY set of files; the earlier ones must include the segment
      files among their victims. *)
   Theorem C09_powerloss_partial : forall h,
-    c_pre cfg = false -> c_n cfg < 2 ^ 64 -> hist_wal h ->
+    c_n cfg < 2 ^ 64 -> hist_wal h ->
     NoCollide (flat_map evl_contents h) -> extl_fits [] h -> N.of_nat (length h) < 2 ^ 32 - 1 ->
     exists hd0 w0, reopen empty_fs = Some (hd0, w0) /\
     exists hd w', run_extl (fun y => y) (hd0, w0) h = Some (hd, w') /\ h_cfg hd = cfg /\
@@ -452,13 +452,13 @@ Section PowerHist.
   Qed.
 
   Theorem C09_powerloss_settled : forall h,
-    c_pre cfg = false -> c_n cfg < 2 ^ 64 ->
+    c_n cfg < 2 ^ 64 ->
     NoCollide (flat_map evl_contents h) -> extl_fits [] h -> N.of_nat (length h) < 2 ^ 32 - 1 ->
     exists hd0 w0, reopen empty_fs = Some (hd0, w0) /\
     exists hd w', run_extl settle (hd0, w0) h = Some (hd, w') /\ h_cfg hd = cfg /\
       wfault w' = None /\ exists sg, allowedl [] h sg /\ Inv' (h_mem hd) (wfs w') sg.
   Proof.
-    intros h Pre Nfit NC Fit Ln.
+    intros h Nfit NC Fit Ln.
     apply (C09_gen settle (fun _ => True)); try assumption.
     - intros B sg sg' x v [P _]. destruct (P v) as [X|X]; [left|right]; exact (proj1 (restb_settle _ _ _ X)).
     - intros B sg sg' x v [P _] _. destruct (P v) as [X|X]; [left|right]; now apply restb_settle.
